@@ -16,6 +16,8 @@ import (
 // ---- family "bi" ------------------------------------------------------------
 
 type biCase struct {
+	T    *affT   `json:"t"`
+	U    *affT   `json:"u"`
 	X    []int64 `json:"x"`
 	Y    []int64 `json:"y"`
 	W    []int64 `json:"w"`
@@ -25,10 +27,13 @@ type biCase struct {
 
 func (c *checker) bi(k *biCase) {
 	p := permFor(c.seed, c.line, len(k.X), 1)
-	x := permute(floats(k.X), p)
-	y := permute(floats(k.Y), p)
+	x := permute(k.T.apply(k.X), p)
+	y := permute(k.U.apply(k.Y), p)
 	w := permute(weights(k.W, k.Nilw), p)
 	ctx := fmt.Sprintf("x=%v y=%v w=%v", x, y, w)
+	if k.T != nil {
+		ctx = fmt.Sprintf("x=%s y=%s (small sample x=%v y=%v) w=%v", k.T.show(x), k.U.show(y), k.X, k.Y, w)
+	}
 	undef := 0
 	for _, r := range k.Res {
 		if len(r.Alts) == 0 {
@@ -387,7 +392,7 @@ func (c *checker) dom(k *domCase) {
 // an unknown family.
 func (c *checker) more(fam string, nontrivial *bool, err *error) bool {
 	switch fam {
-	case "bi":
+	case "bi", "affbi":
 		var k biCase
 		if *err = json.Unmarshal(c.line, &k); *err == nil {
 			c.bi(&k)
@@ -416,6 +421,18 @@ func (c *checker) more(fam string, nontrivial *bool, err *error) bool {
 		if *err = json.Unmarshal(c.line, &k); *err == nil {
 			c.chi(&k)
 			*nontrivial = k.Chi[0] != 0
+		}
+	case "affmat":
+		var k affMatCase
+		if *err = json.Unmarshal(c.line, &k); *err == nil {
+			c.affMat(&k)
+			*nontrivial = len(k.Cov) > 0
+		}
+	case "afford":
+		var k affOrdCase
+		if *err = json.Unmarshal(c.line, &k); *err == nil {
+			c.affOrd(&k)
+			*nontrivial = distinct(k.X) > 1
 		}
 	case "dom":
 		var k domCase
